@@ -460,7 +460,9 @@ class NumpyModel:
             return int(x.cval())
         if isinstance(x, Opaque):
             return x
-        return self.I.opaque("int() of symbolic value", node)
+        o = self.I.opaque("int() of symbolic value", node)
+        o.src = x
+        return o
 
     def b_float(self, node, x=0):
         if isinstance(x, str):
@@ -528,7 +530,7 @@ class NumpyModel:
             return (isinstance(x, (int, IntSym)) or (isinstance(x, EnumMember) and x.is_int)
                     or (isinstance(x, E) and x.is_int() and False))
         if name == "float":
-            return isinstance(x, E) or isinstance(x, float)
+            return isinstance(x, (E, alg.Inf)) or isinstance(x, float)
         if name in ("list", "tuple", "dict", "set"):
             return type(x).__name__ == name
         if name == "ndarray":
